@@ -1077,6 +1077,10 @@ def ext_attr(I, mod, name, node):
             return PBuiltin(name, NUMPY[name])
     if base == "numpy.linalg" and name == "norm":
         return PBuiltin("norm", _np_norm)
+    if base == "pprint" and name in ("pformat",):
+        from .interp import FStr
+
+        return PBuiltin(name, lambda I, *a, **k: FStr(["<pformat>"]))
     if base == "logger" or base == "logging":
         return PBuiltin(name, lambda I, *a, **k: None)
     h = I.ctx.ext_attr_hook(I, base, name)
